@@ -94,6 +94,47 @@ func (l *stubLog) responder(stub int) bed.Responder {
 			rec.reason = why
 			l.mu.Unlock()
 		}
+		if mode == "upgrade" {
+			// an upgraded connection (what exec / attach / port-forward use): 101, then a raw byte stream both ways
+			hj, ok := w.(http.Hijacker)
+			if !ok {
+				http.Error(w, "no hijacker", 500)
+				return
+			}
+			conn, brw, err := hj.Hijack()
+			if err != nil {
+				return
+			}
+			defer conn.Close()
+			brw.WriteString("HTTP/1.1 101 Switching Protocols\r\nConnection: Upgrade\r\nUpgrade: SPDY/3.1\r\n\r\n")
+			brw.Flush()
+			peerGone := make(chan struct{})
+			go func() {
+				buf := make([]byte, 256)
+				for {
+					if _, err := conn.Read(buf); err != nil {
+						close(peerGone)
+						return
+					}
+				}
+			}()
+			tick := time.NewTicker(chunkGap)
+			defer tick.Stop()
+			for n := 0; ; n++ {
+				if _, err := fmt.Fprintf(conn, "frame %d\n", n); err != nil {
+					gone("write error on the upgraded connection: " + err.Error())
+					return
+				}
+				select {
+				case <-peerGone:
+					gone("peer closed the upgraded connection")
+					return
+				case <-l.release:
+					return
+				case <-tick.C:
+				}
+			}
+		}
 		if mode == "headwait" {
 			// the response head is withheld until the peer goes away (or the harness ends the history)
 			select {
@@ -297,7 +338,93 @@ func (h *hist) clusterObjectWithPolicies(name, prefix string, policyStubs []int,
 	return bed.BuildCluster(bed.ClusterSpec{Name: name, Servers: servers, Policies: ps, Token: h.gwToken(name)})
 }
 
+// openUpgrade opens an upgrade request (as exec / attach / port-forward do) over a raw connection to the gateway.
+func (h *hist) openUpgrade(st *stream) {
+	h.nid++
+	st.ID = fmt.Sprintf("c15-%d-%d", h.id, h.nid)
+	h.streams = append(h.streams, st)
+	tok := h.token(st.User)
+	var cmu sync.Mutex
+	var conn net.Conn
+	cancelled := false
+	st.cancel = func() {
+		cmu.Lock()
+		cancelled = true
+		if conn != nil {
+			conn.Close()
+		}
+		cmu.Unlock()
+	}
+	h.wg.Add(1)
+	go func() {
+		defer h.wg.Done()
+		end := func(err string) {
+			st.mu.Lock()
+			st.ended = bed.Now()
+			st.endErr = err
+			st.mu.Unlock()
+		}
+		c, err := net.Dial("tcp", h.gw.Addr())
+		if err != nil {
+			end("dial error: " + err.Error())
+			return
+		}
+		cmu.Lock()
+		conn = c
+		if cancelled {
+			c.Close()
+		}
+		cmu.Unlock()
+		defer c.Close()
+		fmt.Fprintf(c, "POST /api/v1/namespaces/ns/pods/p1/exec?command=sh&stdin=true&stdout=true HTTP/1.1\r\nHost: %s\r\nAuthorization: Bearer %s\r\nConnection: Upgrade\r\nUpgrade: SPDY/3.1\r\nX-Stream-Protocol-Version: v4.channel.k8s.io\r\n%s: %s\r\nX-Verif-Mode: upgrade\r\nContent-Length: 0\r\n\r\n",
+			st.Cluster, tok, bed.IDHeader, st.ID)
+		rd := bufio.NewReader(c)
+		line, err := rd.ReadString('\n')
+		if err != nil {
+			end("no response head: " + err.Error())
+			return
+		}
+		code := 0
+		fmt.Sscanf(line, "HTTP/1.1 %d", &code)
+		st.mu.Lock()
+		st.status = code
+		st.mu.Unlock()
+		for { // rest of the head
+			l, err := rd.ReadString('\n')
+			if err != nil {
+				end("response head cut: " + err.Error())
+				return
+			}
+			if l == "\r\n" {
+				break
+			}
+		}
+		if code != 101 {
+			// an error answer instead of the upgrade: the request is over
+			end(fmt.Sprintf("answered %d instead of 101", code))
+			return
+		}
+		for {
+			l, err := rd.ReadString('\n')
+			if len(l) > 0 {
+				st.mu.Lock()
+				st.chunks++
+				st.last = bed.Now()
+				st.mu.Unlock()
+			}
+			if err != nil {
+				end(err.Error())
+				return
+			}
+		}
+	}()
+}
+
 func (h *hist) open(st *stream) {
+	if st.Mode == "upgrade" {
+		h.openUpgrade(st)
+		return
+	}
 	h.nid++
 	st.ID = fmt.Sprintf("c15-%d-%d", h.id, h.nid)
 	path := "/api/v1/namespaces/ns/pods?watch=true"
@@ -418,10 +545,17 @@ func (h *hist) close() {
 	}
 }
 
-func newHist(r *vkit.R, id, nA, nB int) *hist {
+// tlsA: the endpoints of cluster A are TLS servers that speak HTTP/2 (the production setting: all proxied requests to
+// one endpoint are streams of one connection), otherwise plain HTTP/1.1.
+func newHist(r *vkit.R, id, nA, nB int, tlsA bool) *hist {
 	h := &hist{r: r, id: id, tokens: map[string]string{}, slash: map[int]bool{}, lastObj: map[string]*proxyv1alpha1.UpstreamCluster{}, slog: &stubLog{m: map[string]*upRec{}, release: make(chan struct{})}}
 	for i := 0; i < nA+nB; i++ {
-		s := bed.NewStub(fmt.Sprintf("h%d-s%d", id, i))
+		var s *bed.Stub
+		if tlsA { // every stub of the history: a cluster may not mix http and https servers, and B may list an upstream of A
+			s = bed.NewTLSStub(fmt.Sprintf("h%d-s%d", id, i), true)
+		} else {
+			s = bed.NewStub(fmt.Sprintf("h%d-s%d", id, i))
+		}
 		s.SetResponder(h.slog.responder(i))
 		h.stubs = append(h.stubs, s)
 		if i < nA {
@@ -457,8 +591,12 @@ type witness struct {
 // runHistory: clusters A (removed target: its first endpoint, or the whole cluster) and B (control).
 func runHistory(r *vkit.R, id int, g *vkit.Rand, longWait bool, hungProbe bool) {
 	nA, nB := g.Range(2, 3), g.Range(1, 2)
-	h := newHist(r, id, nA, nB)
+	tlsA := g.Chance(0.3)
+	h := newHist(r, id, nA, nB, tlsA)
 	defer h.close()
+	if tlsA {
+		r.Count("histories_with_tls_http2_upstreams", 1)
+	}
 	kind := "endpoint-remove"
 	if g.Bool() {
 		kind = "cluster-delete"
@@ -469,6 +607,12 @@ func runHistory(r *vkit.R, id int, g *vkit.Rand, longWait bool, hungProbe bool) 
 		kind = []string{"endpoint-remove", "cluster-delete"}[id%2]
 	} else {
 		h.shared = g.Chance(0.3)
+	}
+	// every sixth ordinary history is an endpoint removal delivered as "deleted and re-created" on an object whose spec was
+	// never changed since its creation (so that this shape is exercised in every run, whatever the seed)
+	forceRecreate := !hungProbe && !longWait && id%6 == 0
+	if forceRecreate {
+		kind = "endpoint-remove"
 	}
 	nameA, nameB := fmt.Sprintf("a%d.c15.test", id), fmt.Sprintf("b%d.c15.test", id)
 	h.clusterNames = []string{nameA, nameB}
@@ -487,7 +631,7 @@ func runHistory(r *vkit.R, id int, g *vkit.Rand, longWait bool, hungProbe bool) 
 	// pre-history of the endpoint that will be removed: it was disabled at some point (created disabled, or disabled
 	// later) and enabled again before anything else happens, i.e. its health checker was restarted by a spec update
 	pre := "none"
-	if !hungProbe && (longWait || g.Chance(0.45)) {
+	if !hungProbe && !forceRecreate && (longWait || g.Chance(0.45)) {
 		pre = []string{"created-disabled-then-enabled", "disabled-then-enabled"}[g.Intn(2)]
 		if longWait {
 			// the histories that wait > 5 s for a ticker probe cover both removal kinds with this pre-history
@@ -532,10 +676,26 @@ func runHistory(r *vkit.R, id int, g *vkit.Rand, longWait bool, hungProbe bool) 
 			return false
 		}
 		if !h.waitAllReady(o, watchdog) {
-			h.fail("stub endpoints did not become ready within the watchdog")
+			h.fail(fmt.Sprintf("stub endpoints did not become ready within the watchdog (tls/h2 upstreams=%v, shared upstream=%v, trailing slash=%v, object %s)", tlsA, h.shared, h.slash, o.Name))
 			return false
 		}
 		return true
+	}
+	// An earlier incarnation of cluster A (same name, other uid) existed and was deleted before this history's cluster is
+	// created: nothing of it may survive (its endpoints' contexts are cancelled; the new one must be cut / probed on its own).
+	if !hungProbe && g.Chance(0.25) {
+		first := objA.DeepCopy()
+		if g.Bool() && len(first.Spec.Servers) > 1 {
+			first.Spec.Servers = first.Spec.Servers[:1] // the earlier incarnation had only E1
+		}
+		if !applyA(first) {
+			return
+		}
+		if sr := h.deleteCluster(nameA); sr.Err != nil || sr.Panic != nil || sr.Requeue {
+			h.fail(fmt.Sprintf("controller did not delete the earlier incarnation: %+v", sr))
+			return
+		}
+		r.Count("histories_whose_cluster_had_an_earlier_deleted_incarnation", 1)
 	}
 	switch pre {
 	case "created-disabled-then-enabled":
@@ -567,7 +727,7 @@ func runHistory(r *vkit.R, id int, g *vkit.Rand, longWait bool, hungProbe bool) 
 			return
 		}
 		if !h.waitAllReady(o, watchdog) {
-			h.fail("stub endpoints did not become ready within the watchdog")
+			h.fail(fmt.Sprintf("stub endpoints did not become ready within the watchdog (tls/h2 upstreams=%v, shared upstream=%v, trailing slash=%v, object %s)", tlsA, h.shared, h.slash, o.Name))
 			return
 		}
 	}
@@ -593,18 +753,20 @@ func runHistory(r *vkit.R, id int, g *vkit.Rand, longWait bool, hungProbe bool) 
 	if !hungProbe && g.Chance(0.4) {
 		timing = "early"
 	}
-	modes := []string{"watch", "follow", "headwait"}
+	// request kinds: watch, log-follow style stream, withheld response head, upgraded connection (exec / attach / port-forward)
+	ctlMode := func() string { return []string{"watch", "follow", "watch", "follow", "upgrade"}[g.Intn(5)] }
+	tgtMode := func() string { return []string{"watch", "follow", "headwait", "upgrade"}[g.Intn(4)] }
 	var targets, controls []*stream
 	// control streams first (always established before the removal)
 	for _, s := range h.bStubs {
 		for i := g.Range(1, 2); i > 0; i-- {
-			st := &stream{Cluster: nameB, User: fmt.Sprintf("b-e%d", s), Stub: s, Mode: modes[g.Intn(2)], Role: "other-cluster", Phase: "streaming"}
+			st := &stream{Cluster: nameB, User: fmt.Sprintf("b-e%d", s), Stub: s, Mode: ctlMode(), Role: "other-cluster", Phase: "streaming"}
 			h.open(st)
 			controls = append(controls, st)
 		}
 	}
 	if h.shared {
-		st := &stream{Cluster: nameB, User: fmt.Sprintf("b-e%d", e1), Stub: e1, Mode: modes[g.Intn(2)], Role: "other-cluster-same-upstream", Phase: "streaming"}
+		st := &stream{Cluster: nameB, User: fmt.Sprintf("b-e%d", e1), Stub: e1, Mode: ctlMode(), Role: "other-cluster-same-upstream", Phase: "streaming"}
 		h.open(st)
 		controls = append(controls, st)
 	}
@@ -616,7 +778,7 @@ func runHistory(r *vkit.R, id int, g *vkit.Rand, longWait bool, hungProbe bool) 
 	for _, s := range h.aStubs {
 		if !isTarget(s) {
 			for i := g.Range(1, 2); i > 0; i-- {
-				st := &stream{Cluster: nameA, User: fmt.Sprintf("a-e%d", s), Stub: s, Mode: modes[g.Intn(2)], Role: "same-cluster-other-endpoint", Phase: "streaming"}
+				st := &stream{Cluster: nameA, User: fmt.Sprintf("a-e%d", s), Stub: s, Mode: ctlMode(), Role: "same-cluster-other-endpoint", Phase: "streaming"}
 				h.open(st)
 				controls = append(controls, st)
 			}
@@ -639,13 +801,17 @@ func runHistory(r *vkit.R, id int, g *vkit.Rand, longWait bool, hungProbe bool) 
 			continue
 		}
 		for i := g.Range(1, 3); i > 0; i-- {
-			mode := modes[g.Intn(3)]
+			mode := tgtMode()
 			phase := "streaming"
 			if mode == "headwait" {
 				phase = "awaiting-head"
 			}
+
 			if timing == "early" {
 				phase = "early"
+			}
+			if mode == "upgrade" {
+				phase = "upgraded" // whatever the timing: the request kind is the discriminating feature
 			}
 			st := &stream{Cluster: namesA[g.Intn(len(namesA))], User: fmt.Sprintf("a-e%d", s), Stub: s, Mode: mode, Role: "target", Phase: phase}
 			h.open(st)
@@ -684,7 +850,7 @@ func runHistory(r *vkit.R, id int, g *vkit.Rand, longWait bool, hungProbe bool) 
 	// the server list by a later update. The statement's demand is about the REMOVAL: whatever is still being proxied to
 	// the endpoint then must be cut.
 	retire := ""
-	if kind == "endpoint-remove" && !hungProbe && g.Chance(0.4) {
+	if kind == "endpoint-remove" && !hungProbe && !forceRecreate && g.Chance(0.4) {
 		retire = "/disabled-before-removal"
 		if !func() bool {
 			if sr := h.applyObj(withE1Disabled()); sr.Err != nil || sr.Panic != nil || sr.Requeue {
@@ -722,7 +888,7 @@ func runHistory(r *vkit.R, id int, g *vkit.Rand, longWait bool, hungProbe bool) 
 	// one, E1 is not in its list: all clauses hold for E1 from the moment the first removing sync returned.
 	// `failing` is the variant suffix of the removing update
 	failing := ""
-	if kind == "endpoint-remove" && !hungProbe && g.Chance(0.35) {
+	if kind == "endpoint-remove" && !hungProbe && !forceRecreate && g.Chance(0.35) {
 		failing = "/with-failing-add"
 	}
 	// Another shape of the removing event: the object was DELETED AND RE-CREATED under the same name with a different
@@ -730,7 +896,7 @@ func runHistory(r *vkit.R, id int, g *vkit.Rand, longWait bool, hungProbe bool) 
 	// sees a single update whose metadata.generation is back at 1 (as it was when the old object was applied, if its spec
 	// had not been changed since creation).
 	recreated := false
-	if kind == "endpoint-remove" && !hungProbe && failing == "" && pre == "none" && retire == "" && g.Chance(0.6) {
+	if kind == "endpoint-remove" && !hungProbe && failing == "" && pre == "none" && retire == "" && (forceRecreate || g.Chance(0.85)) {
 		failing = "/deleted-and-recreated"
 		recreated = true
 		if last := h.lastObj[nameA]; last != nil && last.Generation == 1 {
@@ -940,6 +1106,9 @@ func runHistory(r *vkit.R, id int, g *vkit.Rand, longWait bool, hungProbe bool) 
 			continue
 		}
 		r.Count("target_streams_ended", 1)
+		if up, ok := h.stubs[st.Stub].Get(st.ID); ok && up.Proto == "HTTP/2.0" {
+			r.Count("target_streams_over_http2_ended", 1)
+		}
 		_ = endErr
 		lat := ended - tRemoved
 		if seenUp && up.disc-tRemoved > lat {
@@ -1087,14 +1256,16 @@ func TestCheck(t *testing.T) {
 		r.Require(r.Counter("wired_reviews_after_removal_at_remaining_endpoints") >= int64(wiredN*3), "too few review requests were observed after an endpoint removal (production authenticator wiring)")
 		r.Require(r.Counter("target_streams_ended") >= int64(tierN(r, 200, 2500)), "too few in-flight requests to removed targets were observed ending")
 		r.Require(r.Counter("target_streams_that_reached_their_stub") >= int64(tierN(r, 150, 2000)), "too few target requests had reached their stub")
-		r.Require(r.Counter("target_streams_streaming") > 0 && r.Counter("target_streams_awaiting-head") > 0 && r.Counter("target_streams_early") > 0, "a request phase was not exercised")
+		r.Require(r.Counter("target_streams_streaming") > 0 && r.Counter("target_streams_awaiting-head") > 0 && r.Counter("target_streams_early") > 0 && r.Counter("target_streams_upgraded") >= int64(tierN(r, 20, 250)), "a request phase was not exercised")
 		r.Require(r.Counter("control_streams_alive_after_removal") >= int64(tierN(r, 300, 4000)), "too few control streams")
 		r.Require(r.Counter("new_requests_to_deleted_cluster") >= int64(tierN(r, 100, 1200)) && r.Counter("new_requests_to_remaining_endpoints") >= int64(tierN(r, 50, 600)), "too few new requests after removal")
 		r.Require(r.Counter("removed_targets_probe_checked") >= int64(tierN(r, 100, 1200)), "too few removed targets checked for probes")
 		r.Require(r.Counter("long_waits_after_removal") >= int64(long), "too few long waits after removal")
 		r.Require(r.Counter("endpoint_removals_by_recreation_with_equal_generation") >= int64(tierN(r, 6, 80)), "too few endpoint removals by delete-and-re-create with the generation back at the applied one")
+		r.Require(r.Counter("histories_with_tls_http2_upstreams") >= int64(tierN(r, 25, 300)) && r.Counter("target_streams_over_http2_ended") >= int64(tierN(r, 40, 500)), "too few histories with TLS/HTTP2 upstreams")
+		r.Require(r.Counter("histories_whose_cluster_had_an_earlier_deleted_incarnation") >= int64(tierN(r, 15, 200)), "too few histories with an earlier, deleted incarnation of the cluster")
 		r.Require(r.Counter("histories_with_trailing_slash_server_urls") >= int64(tierN(r, 25, 300)), "too few histories with trailing-slash server URLs")
-		r.Require(r.Counter("endpoint_removals_with_failing_add") >= int64(tierN(r, 10, 120)), "too few endpoint removals whose update also adds an unbuildable server")
+		r.Require(r.Counter("endpoint_removals_with_failing_add") >= int64(tierN(r, 6, 120)), "too few endpoint removals whose update also adds an unbuildable server")
 		r.Require(r.Counter("cluster_deletions_with_alias_names") >= int64(tierN(r, 15, 150)) && r.Counter("alias_requests_forwarded_before_the_deletion") >= int64(tierN(r, 20, 200)), "too few cluster deletions with alias names")
 		r.Require(r.Counter("streams_still_proxied_to_the_disabled_endpoint_at_removal") >= int64(tierN(r, 20, 250)), "too few streams were still being proxied to an endpoint that was disabled and then removed")
 		r.Require(r.Counter("endpoint_removals_after_disable_enable") >= int64(tierN(r, 15, 200)), "too few endpoint removals whose endpoint had been disabled and enabled before")
